@@ -6,6 +6,8 @@ pub mod c03;
 pub mod c04;
 pub mod c08;
 pub mod c09;
+pub mod c10;
+pub mod c11;
 pub mod c12;
 pub mod c13;
 pub mod c14;
@@ -16,6 +18,8 @@ pub fn run(cfg: &Cfg) -> Option<Report> {
         "C04" => c04::run(cfg),
         "C08" => c08::run(cfg),
         "C09" => c09::run(cfg),
+        "C10" => c10::run(cfg),
+        "C11" => c11::run(cfg),
         "C12" => c12::run(cfg),
         "C13" => c13::run(cfg),
         "C14" => c14::run(cfg),
@@ -29,6 +33,8 @@ pub fn replay(cfg: &Cfg, case: &Value) -> Option<Report> {
         "C04" => c04::replay(cfg, case),
         "C08" => c08::replay(cfg, case),
         "C09" => c09::replay(cfg, case),
+        "C10" => c10::replay(cfg, case),
+        "C11" => c11::replay(cfg, case),
         "C12" => c12::replay(cfg, case),
         "C13" => c13::replay(cfg, case),
         "C14" => c14::replay(cfg, case),
